@@ -110,6 +110,11 @@ func VerifC08_Cluster() {
 	a.Labels = model.LabelSet{"alertname": "A"}
 	a.StartsAt, a.UpdatedAt = now, now
 	done := 0
+	held := time.Duration(0)
+	if vfBool("heldBeforeTheStage") {
+		// (a grid: symbolic holds make the mutated wait arithmetic very slow to solve)
+		held = []time.Duration{20 * time.Second, 7 * time.Second, 40 * time.Second}[vfChoice("held", 1+2*vfTier())]
+	}
 	prevSkew := time.Duration(0)
 	for i := 0; i < n; i++ {
 		inst := insts[i]
@@ -121,6 +126,9 @@ func VerifC08_Cluster() {
 			inst.notifier.crash = true
 			inst.notifier.killed = cancel
 		}
+		// the flush tick the context carries may lie before the moment the receiver's
+		// stage is reached (gossip settling after a start, a tick read late): everybody
+		// is held for the same symbolic time
 		vfGo(fmt.Sprintf("instance-%d", i), func() {
 			defer cancel()
 			vfAdvance(skew)
@@ -128,6 +136,7 @@ func VerifC08_Cluster() {
 			c = WithReceiverName(c, "recv")
 			c = WithRepeatInterval(c, 4*time.Hour)
 			c = WithNow(c, vfNow())
+			vfAdvance(held)
 			inst.stage.Exec(c, promslog.NewNopLogger(), a)
 			done++
 		})
